@@ -8,6 +8,7 @@ import (
 
 	"github.com/yorkie-team/yorkie/pkg/document"
 	"github.com/yorkie-team/yorkie/pkg/document/change"
+	"github.com/yorkie-team/yorkie/pkg/document/crdt"
 	"github.com/yorkie-team/yorkie/pkg/key"
 
 	"verif/internal/gen"
@@ -61,7 +62,7 @@ func (c14) NewWorker(tier string, seed int64) (runner.Worker, error) {
 func (w *c14Worker) Close() {}
 
 type c14Step struct {
-	T       string     `json:"t"` // update | undo | redo | clear
+	T       string     `json:"t"` // update | undo | redo | clear | collect
 	E       []gen.Edit `json:"e,omitempty"`
 	Refused bool       `json:"refused,omitempty"` // the Update returned an error (recorded, replayed as is)
 }
@@ -101,6 +102,13 @@ type c14Run struct {
 	calls  int
 	// mergeSeen: the program deleted across a tree element boundary
 	mergeSeen bool
+	// purged: tombstones a collect step removed (the only attached client: the minimum
+	// version vector is its own)
+	purged int
+	// ever: identity of every text/tree node the document ever held; recreated: an
+	// undo/redo brought back, as a NEW node, one that a collect step had purged
+	ever      map[string]bool
+	recreated string
 }
 
 func newC14Run(res *runner.CaseResult, rp c14Replay) *c14Run {
@@ -109,6 +117,45 @@ func newC14Run(res *runner.CaseResult, rp c14Replay) *c14Run {
 	r := &c14Run{res: res, doc: d, exact: rp.Exact, rp: rp}
 	r.states = []string{canonDoc(d)}
 	return r
+}
+
+// c14NodeIDs: identity of every text piece and tree node (tombstones included).
+func c14NodeIDs(d *document.Document) map[string]bool {
+	out := map[string]bool{}
+	var walk func(e crdt.Element)
+	walk = func(e crdt.Element) {
+		switch v := e.(type) {
+		case *crdt.Object:
+			for _, m := range v.Members() {
+				walk(m)
+			}
+		case *crdt.Array:
+			for _, m := range v.Elements() {
+				walk(m)
+			}
+		case *crdt.Text:
+			for _, n := range v.Nodes() {
+				out["text "+v.CreatedAt().Key()+" "+n.ID().ToTestString()] = true
+			}
+		case *crdt.Tree:
+			for _, n := range v.Nodes() {
+				out[fmt.Sprintf("tree %s %s:%d", v.CreatedAt().Key(), n.ID().CreatedAt.Key(), n.ID().Offset)] = true
+			}
+		}
+	}
+	walk(d.RootObject())
+	return out
+}
+
+func (r *c14Run) remember() map[string]bool {
+	ids := c14NodeIDs(r.doc)
+	if r.ever == nil {
+		r.ever = map[string]bool{}
+	}
+	for id := range ids {
+		r.ever[id] = true
+	}
+	return ids
 }
 
 func (r *c14Run) viol(kind, detail string) {
@@ -132,6 +179,14 @@ func (r *c14Run) viol(kind, detail string) {
 				ident = "after-tree-merge:index-error"
 			}
 		}
+	}
+	if ident == "" && r.recreated != "" && (kind == "undo-content-wrong" || kind == "redo-content-wrong") {
+		// recorded finding F-UNDO-AFTER-PURGE (upstream's open "GC vs undo", #664): an
+		// undo/redo of this history had to RE-CREATE a text piece / tree node that garbage
+		// collection had purged; where a recreated node goes is a guess once its tombstone
+		// (the only record of its place among concurrent insertions) is gone
+		ident = "undo-after-purge:recreated-" + r.recreated
+		detail += "\nan undo/redo of this history re-created a purged " + r.recreated + " node"
 	}
 	r.res.Violate(kind, detail+"\nprogram: "+strings.Join(prog, "; "), ident, rp)
 }
@@ -187,6 +242,38 @@ func (r *c14Run) do(st c14Step) bool {
 			r.viol("undo-depth-jumped", fmt.Sprintf("%s moved the undo depth from %d to %d", st.String(), before, after))
 			return false
 		}
+	case "collect":
+		// what the sync of the ONLY attached client does: every change is acknowledged,
+		// the minimum version vector is the client's own, every tombstone is purged
+		r.steps = append(r.steps, st)
+		r.remember()
+		n, err := 0, error(nil)
+		func() {
+			defer func() {
+				if x := recover(); x != nil {
+					err = fmt.Errorf("PANIC: %v", x)
+				}
+			}()
+			n = r.doc.GarbageCollect(r.doc.VersionVector().DeepCopy())
+		}()
+		if err != nil {
+			r.viol("collect-failed", err.Error())
+			return false
+		}
+		r.purged += n
+		r.res.AddStat("collect_steps", 1)
+		r.res.AddStat("tombstones_purged", int64(n))
+		if !r.cloneRoot("after collect") {
+			return false
+		}
+		if c := canonDoc(r.doc); r.exact && c != r.states[r.cur] {
+			r.viol("collect-changed-content", fmt.Sprintf("garbage collection changed the visible content:\n before %s\n after  %s", r.states[r.cur], c))
+			return false
+		}
+		if p := textIndexProblem(r.doc); p != "" {
+			r.viol("text-index-corrupt", "after collect: "+p)
+			return false
+		}
 	case "clear":
 		// the history starts over while the content stays (what a client sees after
 		// attaching to an existing document)
@@ -206,9 +293,22 @@ func (r *c14Run) do(st c14Step) bool {
 		r.steps = append(r.steps, st)
 		r.calls++
 		r.res.AddStat("undo_redo_calls", 1)
+		var pre map[string]bool
+		if r.purged > 0 {
+			pre = r.remember()
+		}
 		if err := safeUndo(r.doc, undo); err != nil {
 			r.viol(st.T+"-failed", fmt.Sprintf("%s at history position %d of %d returned: %v", st.T, r.cur, len(r.states)-1, err))
 			return false
+		}
+		if pre != nil && r.recreated == "" {
+			for id := range c14NodeIDs(r.doc) {
+				if !pre[id] && r.ever[id] {
+					r.recreated = strings.SplitN(id, " ", 2)[0]
+					r.res.AddStat("undo_redo_recreated_a_purged_node", 1)
+					break
+				}
+			}
 		}
 		if undo {
 			r.cur--
@@ -216,6 +316,10 @@ func (r *c14Run) do(st c14Step) bool {
 			r.cur++
 		}
 		if !r.cloneRoot("after " + st.T) {
+			return false
+		}
+		if p := textIndexProblem(r.doc); p != "" {
+			r.viol("text-index-corrupt", "after "+st.T+": "+p)
 			return false
 		}
 		if r.exact {
@@ -236,6 +340,13 @@ func (r *c14Run) do(st c14Step) bool {
 // deliverToPeer ships everything the author produced to a fresh peer through the wire codec.
 func (r *c14Run) deliverToPeer() {
 	if r.bad {
+		return
+	}
+	if r.purged > 0 {
+		// the peer below replays the whole log WITHOUT the purges the author went through;
+		// how an undo after a purge is resolved by replicas in different collection states
+		// is C15's subject (recorded finding F-UNDO-AFTER-PURGE), not judged here
+		r.res.AddStat("peer_delivery_skipped_after_purge", 1)
 		return
 	}
 	pack := r.doc.CreateChangePack()
@@ -363,9 +474,16 @@ func (w *c14Worker) runRandom(res *runner.CaseResult, idx int, exact bool) {
 			}
 		}
 	}
+	collects := idx%2 == 1
+	if collects {
+		r.do(c14Step{T: "collect"})
+	}
 	walk := 6 + rng.Intn(40)
 	for i := 0; i < walk && !r.bad; i++ {
 		x := rng.Intn(100)
+		if collects && rng.Intn(6) == 0 {
+			r.do(c14Step{T: "collect"})
+		}
 		switch {
 		case x < 50:
 			// a burst of undos
@@ -550,41 +668,57 @@ func (w *c14Worker) runExhaustive(res *runner.CaseResult, family string, chunk, 
 		if d > 0 {
 			nprog++
 			if nprog%chunks == chunk {
-				r := newC14Run(res, c14Replay{Family: "exhaustive-" + family, Seed: w.seed, Exact: true})
-				for _, e := range c14Base(family) {
-					r.do(c14Step{T: "update", E: []gen.Edit{e}})
-				}
-				if (nprog/chunks)%2 == 1 {
-					r.do(c14Step{T: "clear"})
-				}
-				ok := true
-				for _, e := range prefix {
-					if !r.do(c14Step{T: "update", E: []gen.Edit{e}}) {
-						ok = false
-						break
+				// every program runs three times: plain; with a collection between the
+				// program and the undo/redo walk; with a collection after every single call
+				for _, gc := range []string{"", "once", "always"} {
+					r := newC14Run(res, c14Replay{Family: "exhaustive-" + family, Seed: w.seed, Exact: true})
+					for _, e := range c14Base(family) {
+						r.do(c14Step{T: "update", E: []gen.Edit{e}})
 					}
-				}
-				if ok && !r.bad {
-					res.AddStat("exhaustive_programs", 1)
-					n := r.cur
-					for k := 0; k < n; k++ {
-						r.do(c14Step{T: "undo"})
+					if (nprog/chunks)%2 == 1 {
+						r.do(c14Step{T: "clear"})
 					}
-					for k := 0; k < n; k++ {
-						r.do(c14Step{T: "redo"})
-					}
-					for k := 1; k <= n && k <= 4; k++ {
-						for j := 0; j < k; j++ {
-							r.do(c14Step{T: "undo"})
+					ok := true
+					for _, e := range prefix {
+						if !r.do(c14Step{T: "update", E: []gen.Edit{e}}) {
+							ok = false
+							break
 						}
-						for j := 0; j < k; j++ {
-							r.do(c14Step{T: "redo"})
+						if gc == "always" {
+							r.do(c14Step{T: "collect"})
 						}
 					}
-					r.deliverToPeer()
-				}
-				if r.bad {
-					stop = len(res.Viol) >= 3
+					if ok && !r.bad {
+						res.AddStat("exhaustive_programs", 1)
+						if gc == "once" {
+							r.do(c14Step{T: "collect"})
+						}
+						call := func(t string) {
+							r.do(c14Step{T: t})
+							if gc == "always" {
+								r.do(c14Step{T: "collect"})
+							}
+						}
+						n := r.cur
+						for k := 0; k < n; k++ {
+							call("undo")
+						}
+						for k := 0; k < n; k++ {
+							call("redo")
+						}
+						for k := 1; k <= n && k <= 4; k++ {
+							for j := 0; j < k; j++ {
+								call("undo")
+							}
+							for j := 0; j < k; j++ {
+								call("redo")
+							}
+						}
+						r.deliverToPeer()
+					}
+					if r.bad {
+						stop = len(res.Viol) >= 3
+					}
 				}
 			}
 		}
